@@ -79,7 +79,9 @@ for pid in props:
         "engine": "vf",
         "level_claimed": {"category": level, "text": text, "design_ref": f"DESIGN.md section {ref}"},
         "level_note": note,
-        "technique": tech,
+        "technique": tech + ("; the thorough tier adds one coverage-guided campaign (atheris/libFuzzer bytes -> hypothesis "
+                              "fuzz_one_input -> same case strategy and same oracle, asyncstdlib instrumented) per "
+                              "Hypothesis-driven shard, violations shrunk by Hypothesis"),
     })
 manifest = {
  "version": 1,
@@ -88,7 +90,7 @@ manifest = {
            "baseline_off_cmd": "cd /repo && env -u ASYNCSTDLIB_VERIF /venv/bin/python -m pytest -ra -q -p no:cacheprovider --timeout=900 --continue-on-collection-errors unittests",
            "source_commits": [], "add_only": True},
  "engines": [{"name": "vf", "path": "/verif/vf", "serves_properties": sorted(CHECKS),
-              "kind_free_text": "Hypothesis 6.168 property-based testing: differential / metamorphic / model-based (stateful) checks over JSON case descriptors, hand-driven event loop owning schedules and cancellation points, 16-way sharded"}],
+              "kind_free_text": "Hypothesis 6.168 property-based testing: differential / metamorphic / model-based (stateful) checks over JSON case descriptors, hand-driven event loop owning schedules and cancellation points, 16-way sharded; thorough tier: additional atheris (libFuzzer) coverage-guided campaigns over the same strategies and oracles (vf/fuzz.py)"}],
  "checks": checks,
  "not_applicable": [{"property_id": p, "reason": REASONS.get(p, "check under construction in this session; not claimed until it is registered here")} for p in props if p not in CHECKS],
  "notes": "All checks: ./check <id> quick|thorough [--replay file]; exit 0 held / 1 VIOLATION / 2 harness error. Defects repaired in /repo are listed in known_findings.json (fixed:).",
